@@ -163,6 +163,13 @@ func (s *Linear) Nice(o TickOptions) {
 	}
 
 	firstN, lastN, spacing := s.spacingAtLevel(level, true)
-	s.Min = firstN * spacing
-	s.Max = lastN * spacing
+	min, max := firstN*spacing, lastN*spacing
+	if math.IsNaN(min) || math.IsInf(min, 0) || math.IsNaN(max) || math.IsInf(max, 0) {
+		// The tick spacing at this level over- or underflowed
+		// (this happens when o.Max is too small to be
+		// satisfied at any representable spacing). Leave the
+		// domain alone rather than making it non-finite.
+		return
+	}
+	s.Min, s.Max = min, max
 }
